@@ -14,13 +14,25 @@ def gen_vars(r, maxops):
     depth_markers = 1          # context markers on the stack (bottom one included)
     for g in range(r.range(0, 3)):
         ops.append("var %d %d 0" % (r.below(4), r.range(1, 99)))
+    nglob = len(ops) - 2
     ops.append("mark")
     depth_markers += 1
     frames = [[0]]              # element frames pushed per open marker level (for choosing plausible ids)
     frames.append([])
     n = r.range(3, maxops)
     for _ in range(n):
-        k = r.weighted([("cm", 4), ("pcm", 3), ("ef", 5), ("pef", 3), ("var", 8), ("params", 3), ("get", 8), ("getp", 5), ("idx", 1)])
+        k = r.weighted([("cm", 4), ("pcm", 3), ("ef", 5), ("pef", 3), ("var", 8), ("params", 3), ("get", 8), ("getp", 5), ("idx", 1), ("aset", 2)])
+        if k == "aset":
+            # an attribute set is instantiated (ElemAttributeSet::startElement / endElement): the current stack frame index is
+            # set to the global one (= 2 + number of globals, recorded by markGlobalStackFrame), references are resolved,
+            # the index is restored (it is the top of the stack in the regime generated here)
+            ops.append("setidx %d" % (2 + nglob))
+            for _ in range(r.range(1, 3)):
+                ops.append("get %d" % r.below(4))
+            if r.chance(1, 3):
+                ops.append("idx")
+            ops.append("setidx top")
+            continue
         if k == "cm":
             ops.append("cm")
             if r.chance(1, 2):
